@@ -243,8 +243,11 @@ def applyStmt (j : J) (op : String) (stmt : Stmt) (outs : List String) : J × Li
   | some sdb' =>
     if out == "ok" then ({ j with sdb := sdb', prevSdb := j.sdb, lastStmt := some stmt, unverified := table :: j.unverified }, [])
     else
-      -- a valid statement was refused; its table may also have been changed
-      ({ j with tainted := taint j table },
+      -- a valid statement was refused; its table may also have been changed; a refused CREATE TABLE
+      -- (whatever the reason for refusing it) must not leave the table behind
+      let isCreate := match stmt with | .createTable _ _ => true | _ => false
+      ({ j with tainted := taint j table,
+                mustNotExist := if isCreate && (findTable j.sdb table).isNone then table :: j.mustNotExist else j.mustNotExist },
         [vio j s!"db:valid-statement-refused:{phase j}" s!"got=[{out}] op=[{short}]"])
   | none =>
     if out == "ok" then (j, [vio j "db:invalid-statement-accepted" s!"op=[{short}]"])
